@@ -261,6 +261,16 @@ def run(m: Model, r: Report, tier: str) -> None:
         any(isinstance(i_, ast.If) and ("st_size" in ast.unparse(i_.test) or "getsize" in ast.unparse(i_.test)) for i_ in ast.walk(rinit.node))
     r.check(guarded_map, "R10", f"{rinit.qualname}#empty-log",
             "mmap.mmap(fd, 0) raises ValueError for an empty file and nothing handles it: a log without any record (0 is in the property's range of lengths) cannot be opened at all", loc=rinit.loc)
+    # the mappability probe decides between mapping the input and copying it into a temporary file: an input that cannot be mapped makes mmap raise ValueError
+    # (empty file) or OSError (character device, e.g. `hr - </dev/null`; some pseudo files) - both must select the copy
+    tmm = m.require_function(f"{LOG}.PenlogReader._test_mmap")
+    tries_ = [t_ for t_ in ast.walk(tmm.node) if isinstance(t_, ast.Try) and any(isinstance(c_, ast.Call) and ast.unparse(c_.func) == "mmap.mmap" for b_ in t_.body for c_ in ast.walk(b_))]
+    if len(tries_) != 1:
+        raise AnalysisError(f"{tmm.qualname}: the try around mmap.mmap was not found")
+    caught_ = " ".join(ast.unparse(h.type) if h.type is not None else "BaseException" for h in tries_[0].handlers)
+    r.check(("OSError" in caught_ or "Exception" in caught_) and ("ValueError" in caught_ or "Exception" in caught_), "R10", f"{tmm.qualname}#unmappable-input",
+            f"the probe catches only `{caught_}`: mmap raises OSError for inputs that are no regular files (an empty log given as `hr - </dev/null`), the error escapes "
+            "and the copy-to-temporary-file fallback is never reached", loc=tmm.loc)
     lo = m.require_function(f"{LOG}.PenlogReader._lookup_offset")
     first_if = next((n for n in lo.node.body if isinstance(n, ast.If)), None)
     ipar = lo.params()[1] if len(lo.params()) > 1 else "index"
